@@ -496,14 +496,14 @@ Section SocNP.
     apply NP_bindr; [apply NP_lift; apply ids_of_notpanic|intros actor_ids].
     apply NP_bindr; [apply NP_lift; apply attributed_notpanic|intros [objs attr_ids]].
     set (objs1 := map _ (combine objs attr_ids)). set (a1 := set_elems "object" objs1 a).
-    set (a2 := match elems "actor" a1 with None => a1 | Some _ => _ end).
+    set (a2 := fold_left _ attr_ids a1).
     assert (Ha : exists m, a = JObj m).
     { unfold object_required, elems in Eo. destruct a; try (cbn in Eo; discriminate). eexists; reflexivity. }
     destruct Ha as [m Hm].
     assert (H1 : elems "object" a1 <> None).
     { unfold a1, elems, set_elems. rewrite Hm, jget_jset_same. destruct (canon_list objs1); discriminate. }
     assert (H2 : elems "object" a2 <> None).
-    { unfold a2. destruct (elems "actor" a1); [|exact H1]. unfold elems. rewrite fold_actor_object. exact H1. }
+    { unfold a2. unfold elems. rewrite fold_actor_object. exact H1. }
     destruct (normalize_ok perm a2 H2) as [Hn Hv].
     apply NP_bindr_lift; [exact Hn|intros a3 E3]. specialize (Hv a3 E3).
     apply NP_bindr.
